@@ -255,7 +255,8 @@ pub fn parse_primitive(const_value: &Pair<Rule>) -> Result<Primitive, Compilatio
             }
         }
         Rule::float | Rule::integer => parse_number(const_value),
-        Rule::boolean => match const_value.as_str() {
+        //the grammar reads the literals in any case (TRUE, False)
+        Rule::boolean => match const_value.as_str().to_lowercase().as_str() {
             "true" => Ok(Primitive::Boolean(true)),
             "false" => Ok(Primitive::Boolean(false)),
             _ => err_unexpected_token!("Expected boolean but got: {}", const_value),
